@@ -272,6 +272,9 @@ func (maybeSelf someDef[T]) ToFloat32() (float32, error) {
 		return (ref).(float32), nil
 	case float64:
 		val, err := maybeSelf.ToFloat64()
+		if !math.IsInf(val, 0) && math.IsInf(float64(float32(val)), 0) {
+			return 0, ErrConversionSizeOverflow
+		}
 		return float32(val), err
 	}
 }
@@ -616,13 +619,16 @@ func (maybeSelf someDef[T]) ToInt32() (int32, error) {
 		return 0, ErrConversionSizeOverflow
 	case float32:
 		val, err := maybeSelf.ToFloat32()
-		if val >= math.MinInt32 && val <= math.MaxInt32 {
+		if float64(val) >= math.MinInt32 && float64(val) <= math.MaxInt32 {
 			return int32(math.Round(float64(val))), err
 		}
 		return 0, ErrConversionSizeOverflow
 	case float64:
 		val, err := maybeSelf.ToFloat64()
-		return int32(math.Round(val)), err
+		if val >= math.MinInt32 && val <= math.MaxInt32 {
+			return int32(math.Round(val)), err
+		}
+		return 0, ErrConversionSizeOverflow
 	}
 }
 
@@ -687,13 +693,13 @@ func (maybeSelf someDef[T]) ToInt64() (int64, error) {
 		return (ref).(int64), nil
 	case float32:
 		val, err := maybeSelf.ToFloat32()
-		if val >= math.MinInt64 && val <= math.MaxInt64 {
+		if val >= math.MinInt64 && val < math.MaxInt64 {
 			return int64(math.Round(float64(val))), err
 		}
 		return 0, ErrConversionSizeOverflow
 	case float64:
 		val, err := maybeSelf.ToFloat64()
-		if val >= math.MinInt64 && val <= math.MaxInt64 {
+		if val >= math.MinInt64 && val < math.MaxInt64 {
 			return int64(math.Round(val)), err
 		}
 		return 0, ErrConversionSizeOverflow
@@ -711,7 +717,7 @@ func (maybeSelf someDef[T]) ToByte() (byte, error) {
 	default:
 		return uint8(0), ErrConversionUnsupported
 	case string:
-		parseInt, err := strconv.ParseInt((ref).(string), 10, 8)
+		parseInt, err := strconv.ParseUint((ref).(string), 10, 8)
 		return uint8(parseInt), err
 	case bool:
 		val, err := maybeSelf.ToBool()
@@ -759,6 +765,9 @@ func (maybeSelf someDef[T]) ToByte() (byte, error) {
 		return 0, ErrConversionSizeOverflow
 	case int8:
 		val, err := maybeSelf.ToInt8()
+		if val < 0 {
+			return 0, ErrConversionSizeOverflow
+		}
 		return uint8(val), err
 	case int16:
 		val, err := maybeSelf.ToInt16()
@@ -804,7 +813,7 @@ func (maybeSelf someDef[T]) ToUint() (uint, error) {
 	default:
 		return 0, ErrConversionUnsupported
 	case string:
-		parseInt, err := strconv.ParseInt((ref).(string), 10, 32)
+		parseInt, err := strconv.ParseUint((ref).(string), 10, 32)
 		return uint(parseInt), err
 	case bool:
 		val, err := maybeSelf.ToBool()
@@ -840,15 +849,27 @@ func (maybeSelf someDef[T]) ToUint() (uint, error) {
 		return uint(val), err
 	case int:
 		val, err := maybeSelf.ToInt()
+		if val < 0 {
+			return 0, ErrConversionSizeOverflow
+		}
 		return uint(val), err
 	case int8:
 		val, err := maybeSelf.ToInt8()
+		if val < 0 {
+			return 0, ErrConversionSizeOverflow
+		}
 		return uint(val), err
 	case int16:
 		val, err := maybeSelf.ToInt16()
+		if val < 0 {
+			return 0, ErrConversionSizeOverflow
+		}
 		return uint(val), err
 	case int32:
 		val, err := maybeSelf.ToInt32()
+		if val < 0 {
+			return 0, ErrConversionSizeOverflow
+		}
 		return uint(val), err
 	case int64:
 		val, err := maybeSelf.ToInt64()
@@ -887,7 +908,7 @@ func (maybeSelf someDef[T]) ToUint16() (uint16, error) {
 	default:
 		return uint16(0), ErrConversionUnsupported
 	case string:
-		parseInt, err := strconv.ParseInt((ref).(string), 10, 16)
+		parseInt, err := strconv.ParseUint((ref).(string), 10, 16)
 		return uint16(parseInt), err
 	case bool:
 		val, err := maybeSelf.ToBool()
@@ -932,9 +953,15 @@ func (maybeSelf someDef[T]) ToUint16() (uint16, error) {
 		return 0, ErrConversionSizeOverflow
 	case int8:
 		val, err := maybeSelf.ToInt8()
+		if val < 0 {
+			return 0, ErrConversionSizeOverflow
+		}
 		return uint16(val), err
 	case int16:
 		val, err := maybeSelf.ToInt32()
+		if val < 0 {
+			return 0, ErrConversionSizeOverflow
+		}
 		return uint16(val), err
 	case int32:
 		val, err := maybeSelf.ToInt32()
@@ -974,7 +1001,7 @@ func (maybeSelf someDef[T]) ToUint32() (uint32, error) {
 	default:
 		return uint32(0), ErrConversionUnsupported
 	case string:
-		parseInt, err := strconv.ParseInt((ref).(string), 10, 32)
+		parseInt, err := strconv.ParseUint((ref).(string), 10, 32)
 		return uint32(parseInt), err
 	case bool:
 		val, err := maybeSelf.ToBool()
@@ -1016,12 +1043,21 @@ func (maybeSelf someDef[T]) ToUint32() (uint32, error) {
 		return 0, ErrConversionSizeOverflow
 	case int8:
 		val, err := maybeSelf.ToInt8()
+		if val < 0 {
+			return 0, ErrConversionSizeOverflow
+		}
 		return uint32(val), err
 	case int16:
 		val, err := maybeSelf.ToInt16()
+		if val < 0 {
+			return 0, ErrConversionSizeOverflow
+		}
 		return uint32(val), err
 	case int32:
 		val, err := maybeSelf.ToInt32()
+		if val < 0 {
+			return 0, ErrConversionSizeOverflow
+		}
 		return uint32(val), err
 	case int64:
 		val, err := maybeSelf.ToInt64()
@@ -1031,13 +1067,16 @@ func (maybeSelf someDef[T]) ToUint32() (uint32, error) {
 		return 0, ErrConversionSizeOverflow
 	case float32:
 		val, err := maybeSelf.ToFloat32()
-		if val >= 0 && val <= math.MaxUint32 {
+		if val >= 0 && float64(val) <= math.MaxUint32 {
 			return uint32(math.Round(float64(val))), err
 		}
 		return 0, ErrConversionSizeOverflow
 	case float64:
 		val, err := maybeSelf.ToFloat64()
-		return uint32(math.Round(val)), err
+		if val >= 0 && val <= math.MaxUint32 {
+			return uint32(math.Round(val)), err
+		}
+		return 0, ErrConversionSizeOverflow
 	}
 }
 
@@ -1052,7 +1091,7 @@ func (maybeSelf someDef[T]) ToUint64() (uint64, error) {
 	default:
 		return uint64(0), ErrConversionUnsupported
 	case string:
-		parseInt, err := strconv.ParseInt((ref).(string), 10, 64)
+		parseInt, err := strconv.ParseUint((ref).(string), 10, 64)
 		return uint64(parseInt), err
 	case bool:
 		val, err := maybeSelf.ToBool()
@@ -1082,28 +1121,43 @@ func (maybeSelf someDef[T]) ToUint64() (uint64, error) {
 		return uint64(val), err
 	case int:
 		val, err := maybeSelf.ToInt()
+		if val < 0 {
+			return 0, ErrConversionSizeOverflow
+		}
 		return uint64(val), err
 	case int8:
 		val, err := maybeSelf.ToInt8()
+		if val < 0 {
+			return 0, ErrConversionSizeOverflow
+		}
 		return uint64(val), err
 	case int16:
 		val, err := maybeSelf.ToInt16()
+		if val < 0 {
+			return 0, ErrConversionSizeOverflow
+		}
 		return uint64(val), err
 	case int32:
 		val, err := maybeSelf.ToInt32()
+		if val < 0 {
+			return 0, ErrConversionSizeOverflow
+		}
 		return uint64(val), err
 	case int64:
 		val, err := maybeSelf.ToInt64()
+		if val < 0 {
+			return 0, ErrConversionSizeOverflow
+		}
 		return uint64(val), err
 	case float32:
 		val, err := maybeSelf.ToFloat32()
-		if val >= 0 && val <= math.MaxUint64 {
+		if val >= 0 && val < math.MaxUint64 {
 			return uint64(math.Round(float64(val))), err
 		}
 		return 0, ErrConversionSizeOverflow
 	case float64:
 		val, err := maybeSelf.ToFloat64()
-		if val >= 0 && val <= math.MaxUint64 {
+		if val >= 0 && val < math.MaxUint64 {
 			return uint64(math.Round(val)), err
 		}
 		return 0, ErrConversionSizeOverflow
@@ -1123,7 +1177,7 @@ func (maybeSelf someDef[T]) ToUintptr() (uintptr, error) {
 	default:
 		return uintptr(0), ErrConversionUnsupported
 	case string:
-		parseInt, err := strconv.ParseInt((ref).(string), 10, 64)
+		parseInt, err := strconv.ParseUint((ref).(string), 10, 64)
 		if uint64(parseInt) <= maxUintptr {
 			return uintptr(parseInt), err
 		}
@@ -1156,28 +1210,49 @@ func (maybeSelf someDef[T]) ToUintptr() (uintptr, error) {
 		return uintptr(val), err
 	case int:
 		val, err := maybeSelf.ToInt()
+		if val < 0 {
+			return 0, ErrConversionSizeOverflow
+		}
 		return uintptr(val), err
 	case int8:
 		val, err := maybeSelf.ToInt8()
+		if val < 0 {
+			return 0, ErrConversionSizeOverflow
+		}
 		return uintptr(val), err
 	case int16:
 		val, err := maybeSelf.ToInt16()
+		if val < 0 {
+			return 0, ErrConversionSizeOverflow
+		}
 		return uintptr(val), err
 	case int32:
 		val, err := maybeSelf.ToInt32()
+		if val < 0 {
+			return 0, ErrConversionSizeOverflow
+		}
 		return uintptr(val), err
 	case int64:
 		val, err := maybeSelf.ToInt64()
+		if val < 0 {
+			return 0, ErrConversionSizeOverflow
+		}
 		if uint64(val) <= maxUintptr {
 			return uintptr(val), err
 		}
 		return uintptr(0), ErrConversionSizeOverflow
 	case float32:
 		val, err := maybeSelf.ToFloat32()
-		return uintptr(math.Round(float64(val))), err
+		if rounded := math.Round(float64(val)); rounded >= 0 && rounded < float64(maxUintptr)+1 {
+			return uintptr(rounded), err
+		}
+		return 0, ErrConversionSizeOverflow
 	case float64:
 		val, err := maybeSelf.ToFloat64()
-		return uintptr(math.Round(val)), err
+		if rounded := math.Round(val); rounded >= 0 && rounded < float64(maxUintptr)+1 {
+			return uintptr(rounded), err
+		}
+		return 0, ErrConversionSizeOverflow
 	}
 }
 
